@@ -3,41 +3,13 @@
    "holds outside the class" lemma, and the concrete witnesses. *)
 From Coq Require Import Reals Lra Lia QArith Qcanon Qcabs Qreals ZArith.
 From Coquelicot Require Import Coquelicot.
-From MV Require Import Base.Prelude Gen.Consts C08.Model C08.ProofsExp C08.ProofsLoop C08.ProofsLottery.
+From MV Require Import Base.Prelude Gen.Consts C08.Model C08.ProofsExp C08.ProofsSharp C08.ProofsLoop C08.ProofsLottery.
 Open Scope R_scope.
 
-(* ---- partial sums over Q ---------------------------------------------------------- *)
-Fixpoint tq (x : Q) (k : nat) : Q :=
-  match k with O => 1%Q | Datatypes.S k' => (tq x k' * x / inject_Z (Z.of_nat k))%Q end.
-Fixpoint sq (x : Q) (n : nat) : Q :=
-  match n with O => 1%Q | Datatypes.S n' => (sq x n' + tq x n)%Q end.
-
-Lemma Q2R_inject_Z z : Q2R (inject_Z z) = IZR z.
-Proof. unfold Q2R, inject_Z. cbn [Qnum Qden]. rewrite Rinv_1. lra. Qed.
-
-Lemma tq_real x k : Q2R (tq x k) = t (Q2R x) k.
-Proof.
-  induction k as [|k IH].
-  - unfold t. simpl. unfold Q2R. simpl. lra.
-  - cbn [tq]. rewrite t_S, <- IH. unfold Qdiv. rewrite Q2R_mult, Q2R_mult, Q2R_inv.
-    + rewrite Q2R_inject_Z, <- INR_IZR_INZ. reflexivity.
-    + unfold Qeq, inject_Z. cbn [Qnum Qden]. lia.
-Qed.
-
-Lemma sq_real x n : Q2R (sq x n) = S (Q2R x) n.
-Proof.
-  induction n as [|n IH].
-  - unfold S, t. simpl. unfold Q2R. simpl. lra.
-  - cbn [sq]. rewrite Q2R_plus, IH, tq_real. reflexivity.
-Qed.
-
-Lemma exp_ge_sq x n : 0 <= Q2R x -> Q2R (sq x n) <= exp (Q2R x).
-Proof. intros H. rewrite sq_real. apply exp_lower; exact H. Qed.
-
 (* ---- known-finding class 1: the lost exit beyond its validity range -------------- *)
-(* x > 2, the exact comparison says won, and q exceeds some lost-threshold of the loop *)
+(* x > 53/20, the exact comparison says won, and q exceeds some lost-threshold of the loop *)
 Definition Known_large_x (c : Qc) (ev stake total : Z) : Prop :=
-  2 < xr (QcR c) stake total /\
+  53 / 20 < xr (QcR c) stake total /\
   draw ev < win_prob (QcR c) stake total /\
   exists n, (1 <= n)%nat /\ hi (IZR FACTOR) (xr (QcR c) stake total) n < qr ev.
 
@@ -47,8 +19,8 @@ Proof. apply IZR_le. unfold FACTOR. vm_compute. discriminate. Qed.
 Lemma FACTOR_pos : (0 < FACTOR)%Z.
 Proof. assert (H := FACTOR_ge_3). apply lt_IZR. lra. Qed.
 
-Lemma valid_le_2 x : x <= 2 -> lost_exit_valid x.
-Proof. intros H. unfold lost_exit_valid. assert (F := FACTOR_ge_3). nra. Qed.
+Lemma valid_sharp x : 0 <= x <= 53 / 20 -> lost_exit_valid x.
+Proof. intros H n Hn. apply tail_ok_sharp; [exact FACTOR_ge_3 | exact H | exact Hn]. Qed.
 
 Lemma BOUND_pos : (1 <= BOUND)%nat.
 Proof. unfold BOUND. apply Nat.ltb_lt. vm_compute. reflexivity. Qed.
@@ -62,8 +34,9 @@ Lemma holds_outside phi c ev stake total :
 Proof.
   intros D NK. split.
   - apply w_won_sound; [exact D | apply Z.lt_le_incl, FACTOR_pos].
-  - intros H. destruct (Rle_or_lt (xr (QcR c) stake total) 2) as [Hx|Hx].
-    + left. apply (w_lost_sound phi c ev stake total D FACTOR_pos); [apply valid_le_2; exact Hx | exact H].
+  - intros H. destruct (Rle_or_lt (xr (QcR c) stake total) (53 / 20)) as [Hx|Hx].
+    + left. apply (w_lost_sound phi c ev stake total D); [| exact H].
+      apply valid_sharp. split; [apply (x_nonneg c ev); exact D | exact Hx].
     + apply Rnot_lt_le. intros Hp. apply NK. split; [exact Hx | split; [exact Hp|]].
       apply lottery_taylor in H. destruct H as (Ht & _ & H).
       apply lost_threshold in H; [| rewrite x_real by exact Ht; apply (x_nonneg c ev); exact D].
@@ -115,10 +88,23 @@ Proof.
   lra.
 Qed.
 
-Lemma w1_x_gt_2 : 2 < xr (QcR w1_c) 1 1.
+Lemma w1_x_gt_2 : 53 / 20 < xr (QcR w1_c) 1 1.
 Proof.
   unfold xr. rewrite weight_1_1, Rmult_1_l. unfold QcR. rewrite <- Q2R_opp.
-  replace 2 with (Q2R 2) by (unfold Q2R; simpl; lra). apply Qlt_Rlt. vm_compute. reflexivity.
+  replace (53 / 20) with (Q2R (53 # 20)) by (unfold Q2R; simpl; lra). apply Qlt_Rlt. vm_compute. reflexivity.
+Qed.
+
+(* sharpness of the range at the level of the loop: at x = 27/10 the very first lost
+   threshold 1 + x + (3/2) x^2 = 14.635 is already below exp x = 14.8797... *)
+Lemma sharp_witness :
+  taylor_comparison BOUND (Q2Qc (147 # 10)) (Q2Qc (27 # 10)) = Lost /\
+  QcR (Q2Qc (147 # 10)) < exp (QcR (Q2Qc (27 # 10))).
+Proof.
+  split; [vm_compute; reflexivity|].
+  rewrite !QcR_Q2Qc.
+  assert (X0 : 0 <= Q2R (27 # 10)) by (unfold Q2R; simpl; lra).
+  apply Rlt_le_trans with (Q2R (sq (27 # 10) 10)); [|apply exp_ge_sq; exact X0].
+  apply Qlt_Rlt. vm_compute. reflexivity.
 Qed.
 
 (* ---- known-finding class 2 / witness 2: phi_f = 1 - 2^-53 treated as 1 ------------- *)
@@ -173,15 +159,16 @@ Proof.
 Qed.
 
 (* ---- assembled statements --------------------------------------------------------- *)
-Lemma exact_below_2 phi c ev stake total v :
-  Dom c ev stake total -> xr (QcR c) stake total <= 2 ->
+Lemma exact_in_range phi c ev stake total v :
+  Dom c ev stake total -> xr (QcR c) stake total <= 53 / 20 ->
   lottery phi (Some c) ev stake total = Ok (Taylor v) -> v <> Cap ->
   (verdict_bool (Taylor v) = true <-> draw ev < win_prob (QcR c) stake total).
 Proof.
   intros D Hx H Hv. destruct v; [| |congruence]; cbn [verdict_bool].
   - split; [intros _|reflexivity]. apply (w_won_sound phi c ev stake total D); [apply Z.lt_le_incl, FACTOR_pos | exact H].
   - split; [discriminate|]. intros Hp.
-    assert (A := w_lost_sound phi c ev stake total D FACTOR_pos (valid_le_2 _ Hx) H). lra.
+    assert (V : lost_exit_valid (xr (QcR c) stake total)) by (apply valid_sharp; split; [apply (x_nonneg c ev); exact D | exact Hx]).
+    assert (A := w_lost_sound phi c ev stake total D V H). lra.
 Qed.
 
 Lemma w1_known : Known_large_x w1_c w1_ev 1 1.
@@ -222,7 +209,7 @@ Qed.
 Lemma nonvacuous :
   let phi := dyadic 3602879701896397 (-54) in
   let c := dyadic (-8039593716390432) (-55) in
-  Dom c (2 ^ 509) 1 3 /\ xr (QcR c) 1 3 <= 2 /\
+  Dom c (2 ^ 509) 1 3 /\ xr (QcR c) 1 3 <= 53 / 20 /\
   lottery phi (Some c) (2 ^ 505) 1 3 = Ok (Taylor Won) /\
   lottery phi (Some c) (2 ^ 509) 1 3 = Ok (Taylor Lost) /\
   lottery phi (Some c) 0 0 3 = Ok (Taylor Cap).
@@ -233,7 +220,7 @@ Proof.
   split; [split; try lia; [unfold EV_MAX; split; [apply Z.pow_nonneg; lia | apply Z.pow_lt_mono_r; lia] | exact Hc]|].
   split.
   - unfold xr, weight, QcR. replace (1 / 3) with (Q2R (1 # 3)) by (unfold Q2R; simpl; lra).
-    rewrite <- Q2R_mult, <- Q2R_opp. replace 2 with (Q2R 2) by (unfold Q2R; simpl; lra).
+    rewrite <- Q2R_mult, <- Q2R_opp. replace (53 / 20) with (Q2R (53 # 20)) by (unfold Q2R; simpl; lra).
     apply Qle_Rle. vm_compute. discriminate.
   - repeat split; vm_compute; reflexivity.
 Qed.
